@@ -3,3 +3,8 @@ class VersionConversion:
   def _to_gfa1_a(self): return self.to_list()
   def _to_gfa2_a(self): return self.to_list()
 
+  # a comment is written in the same way in both versions (the list used
+  # above holds the spacer as a further element: it is not tab-separated text)
+  def to_gfa1_s(self): return str(self)
+  def to_gfa2_s(self): return str(self)
+
